@@ -12,6 +12,7 @@ mcCallsS ==
   \cup [op : {"data"}, sid : {1}, n : {0}, tag : {"A"}, es : {TRUE}, pad : {-1}]
   \cup [op : {"inc"}, n : {3}, sid : {<<>>, <<1>>}]
   \cup [op : {"ack"}, n : {2, 4}, sid : {1, 3}]
+  \cup [op : {"ack"}, n : {4}, sid : {5}]          \* a never-used stream id
   \cup [op : {"set"}, s : {<<<<4, 4>>>>, <<<<4, 12>>>>}]
 mcAdvC == {}
 F_D(sid, n, es, pad) == [t |-> "DATA", sid |-> sid, es |-> es, n |-> n, tag |-> "B", pad |-> pad]
